@@ -494,6 +494,7 @@ class ZorgFileCompiler(ZorgFileListener):
                 any(
                     "::" in b.split()[0]
                     for b in bullet.split(l2_bullet_prefix)[1:]
+                    if b.strip()
                 )
                 for bullet in bullets
             ):
@@ -510,6 +511,7 @@ class ZorgFileCompiler(ZorgFileListener):
                 any(
                     "::" in b.split()[0]
                     for b in bullet.split(l3_bullet_prefix)[1:]
+                    if b.strip()
                 )
                 for bullet in bullets
             ):
